@@ -32,7 +32,8 @@ func IsReservedKey(k []byte) bool {
 // Exec is one executed request as the double saw it.
 type Exec struct {
 	Seq   int
-	Conn  int
+	Conn  int // raw connection id (dial order: NOT deterministic across goroutine schedules; never printed)
+	Lbl   int // canonical connection number on this server (order of first executed request)
 	Tag   int // incarnation tag of the connection
 	DB    int
 	Name  string // lower case
@@ -46,7 +47,7 @@ type Exec struct {
 
 func (e Exec) String() string {
 	var sb strings.Builder
-	fmt.Fprintf(&sb, "#%d c%d db%d", e.Seq, e.Conn, e.DB)
+	fmt.Fprintf(&sb, "#%d c%d db%d", e.Seq, e.Lbl, e.DB)
 	if e.Txn != 0 {
 		fmt.Fprintf(&sb, " txn%d", e.Txn)
 	}
@@ -84,6 +85,7 @@ type Session struct {
 	NReq        int    // requests executed on this connection
 	ParseBroken bool
 	Local       bool
+	Lbl         int // canonical connection number on this server: order of first executed request
 }
 
 // Server is one Redis node double.
@@ -96,6 +98,7 @@ type Server struct {
 	Sessions []*Session
 	seq      int
 	txnSeq   int
+	nextLbl  int
 
 	// Lenient: commands on keys outside the reserved namespace are logged and answered +OK
 	// without being interpreted (the C01/C02 oracles are about the sequence, not semantics).
@@ -157,7 +160,9 @@ func (s *Server) Accept(c *simnet.SimConn) {
 
 func nowMs() int64 { return time.Now().UnixMilli() }
 
-// Live sessions with at least one complete pending request, in connection-id order.
+// Live sessions with at least one complete pending request, in CANONICAL order: sessions that already executed
+// a request by their canonical number, then new sessions ordered by the bytes of their oldest pending request
+// (connection ids and accept order depend on how the runtime interleaved the dialling goroutines).
 func (s *Server) Ready() []*Session {
 	var out []*Session
 	for _, ss := range s.Sessions {
@@ -168,6 +173,34 @@ func (s *Server) Ready() []*Session {
 			out = append(out, ss)
 		}
 	}
+	s.SortCanonical(out)
+	return out
+}
+
+// SortCanonical orders sessions independently of connection ids / accept order.
+func (s *Server) SortCanonical(list []*Session) {
+	key := func(ss *Session) string {
+		if ss.Lbl > 0 {
+			return fmt.Sprintf("0%09d", ss.Lbl)
+		}
+		b := ss.Conn.Pending()
+		if len(b) > 200 {
+			b = b[:200]
+		}
+		return "1" + string(b)
+	}
+	sort.SliceStable(list, func(i, j int) bool { return key(list[i]) < key(list[j]) })
+}
+
+// Live returns the live sessions in canonical order.
+func (s *Server) Live() []*Session {
+	var out []*Session
+	for _, ss := range s.Sessions {
+		if !ss.Dead {
+			out = append(out, ss)
+		}
+	}
+	s.SortCanonical(out)
 	return out
 }
 
@@ -245,6 +278,7 @@ func (s *Server) Dispatch(ss *Session, args [][]byte) bool {
 	if len(args) == 0 {
 		return true
 	}
+	s.labelOf(ss)
 	s.Stats.Requests++
 	ss.NReq++
 	name := strings.ToLower(string(args[0]))
@@ -348,9 +382,29 @@ func (s *Server) Dispatch(ss *Session, args [][]byte) bool {
 	return true
 }
 
+// labelOf gives the session its canonical number (first executed request wins the next number).
+func (s *Server) labelOf(ss *Session) int {
+	if ss.Lbl == 0 {
+		s.nextLbl++
+		ss.Lbl = s.nextLbl
+		if !ss.Local {
+			ss.Conn.Label = fmt.Sprintf("%s/c%d", s.Addr, ss.Lbl)
+		}
+	}
+	return ss.Lbl
+}
+
+// Name returns the printable canonical name of a session (never the raw connection id).
+func (ss *Session) LabelString() string {
+	if ss.Lbl > 0 {
+		return fmt.Sprintf("c%d", ss.Lbl)
+	}
+	return "new"
+}
+
 func (s *Server) logExec(ss *Session, name string, args [][]byte, txn int, v resp.Value) {
 	s.seq++
-	e := Exec{Seq: s.seq, Conn: ss.Conn.ID, Tag: ss.Conn.Tag, DB: ss.DB, Name: name, Args: args, Txn: txn, IsErr: v.IsErr(), AtNs: time.Now().UnixNano(), Node: s.Addr}
+	e := Exec{Seq: s.seq, Conn: ss.Conn.ID, Lbl: s.labelOf(ss), Tag: ss.Conn.Tag, DB: ss.DB, Name: name, Args: args, Txn: txn, IsErr: v.IsErr(), AtNs: time.Now().UnixNano(), Node: s.Addr}
 	if v.IsErr() {
 		e.Reply = string(v.Str)
 		s.Stats.Errors++
